@@ -587,9 +587,6 @@ class FileSystemSink(DataSink):
 
         file_path = os.path.join(obj_dir, filename + ".json")
 
-        if not os.path.exists(obj_dir):
-            os.makedirs(obj_dir)
-
         if self.bundlify:
             if 'spec_version' in stix_obj:
                 # Assuming future specs will allow multiple SDO/SROs
@@ -601,6 +598,10 @@ class FileSystemSink(DataSink):
 
         if os.path.isfile(file_path):
             raise DataSourceError("Attempted to overwrite file (!) at: {}".format(file_path))
+
+        # (only now: a refused object must not leave empty directories behind)
+        if not os.path.exists(obj_dir):
+            os.makedirs(obj_dir)
 
         with io.open(file_path, mode='w', encoding=encoding) as f:
             fp_serialize(stix_obj, f, pretty=pretty, encoding=encoding, ensure_ascii=False)
